@@ -11,6 +11,7 @@ CONSTANTS
   FixUncl = TRUE
   FixCase = TRUE
   FixItems = TRUE
+  ItemsOnce = FALSE
   Lenient <- LenNone
   WithLex = FALSE
   Emit = FALSE
